@@ -43,7 +43,7 @@ func genTarget(rng *rand.Rand) (target string, plain bool) {
 		n := 1 + rng.Intn(4)
 		var segs []string
 		for i := 0; i < n; i++ {
-			segs = append(segs, []string{"v1", "chat", "completions", "api", "generate", "x-y_z", "file.json", "a%20b", "%C3%A9"}[rng.Intn(9)])
+			segs = append(segs, []string{"v1", "chat", "completions", "api", "generate", "x-y_z", "file.json", "a%20b", "%C3%A9", "a%2541", "50%25", "org%252Fname"}[rng.Intn(12)])
 		}
 		if rng.Intn(4) == 0 {
 			// the remaining path itself starts like one of Olla's own routes (one Olla fronting
@@ -307,7 +307,18 @@ func runEngine(run *rep.Run, rng *rand.Rand, eng string, defs []epDef) {
 		rp := resolved(got.Path)
 		wit["resolved_upstream_path"] = rp
 		if d.preserve && !under(d.base, rp) {
-			run.Violation("C16/escapes-base-path/preserve_path", fmt.Sprintf("with preserve_path and base %q the upstream path %q resolves to %q, outside the base path", d.base, trunc(got.Path), trunc(rp)), wit)
+			// which mechanism: after the one decoding the HTTP server performs the path already
+			// has dot segments (joined and cleaned with the base path: the known finding), or it
+			// has none and something decoded it a second time
+			cls := "no-dot-segments-after-one-decoding"
+			if dec, err := url.PathUnescape(target); err == nil {
+				for _, seg := range strings.Split(dec, "/") {
+					if seg == ".." || seg == "." {
+						cls = "dot-segments-after-one-decoding"
+					}
+				}
+			}
+			run.Violation("C16/escapes-base-path/preserve_path/"+cls, fmt.Sprintf("with preserve_path and base %q the upstream path %q resolves to %q, outside the base path", d.base, trunc(got.Path), trunc(rp)), wit)
 		}
 		if d.preserve && !plain && strings.TrimRight(d.base, "/") != "" {
 			run.Count("preserve_path_hostile_forwarded", 1)
